@@ -191,7 +191,12 @@ def block_soup(rng, maxitems=14):
         if x < 0.55:
             if balanced:
                 if stack and rng.random() < 0.45:
+                    if rng.random() < 0.12:
+                        items.append(',')
                     items.append(stack.pop())
+                    if rng.random() < 0.15:
+                        items += [rng.choice(['/* c */', '-- c\n', '/*+ h */'])
+                                  for _ in range(rng.randint(1, 3))]
                 else:
                     o = rng.choice(list(closers))
                     if rng.random() < 0.3:
@@ -208,6 +213,38 @@ def block_soup(rng, maxitems=14):
                 items.append(rng.choice(FILL_ITEMS))
             items.append(stack.pop())
     return ' '.join(items)
+
+
+CHAIN_OPERANDS = ['a', 'b', '@v', '@a', '1', "'s'", 'f(1)', '(x)', 't.c', '*',
+                  'null', 'x1', '"q"', 'case when a then 1 end', '?', ':p']
+CHAIN_MIDDLES = [':=', '::', '.', '=', '+', '-', '*', '/', '||', ' as ', ',',
+                 ' and ', ' or ', '<', '>=', ' like ', ' in ', ' over ', '%']
+CHAIN_PREFIX = ['set', 'select', 'declare', 'x', ',', '1', '(', 'where',
+                'from', 'return', '@', 'begin', ';', 'into']
+
+
+def chain_soup(rng):
+    """Chains of operands joined by the 'middle' tokens the generic
+    grouping helper works on (:= :: . = + - AS , AND ...), the same middle
+    repeated or mixed, unevenly spaced, behind 0-6 other tokens and in
+    front of 0-4: aims at the index arithmetic of the grouping passes."""
+    out = []
+    for _ in range(rng.randint(0, 6)):
+        out.append(rng.choice(CHAIN_PREFIX))
+        out.append(rng.choice([' ', ' ', '  ', '']))
+    same = rng.choice(CHAIN_MIDDLES) if rng.random() < 0.6 else None
+    n = rng.randint(2, 6)
+    for k in range(n):
+        if k:
+            m = same if same and rng.random() < 0.85 \
+                else rng.choice(CHAIN_MIDDLES)
+            sp = rng.choice(['', '', ' ', '  '])
+            out.append(sp + m + rng.choice(['', '', ' ', '  ']))
+        out.append(rng.choice(CHAIN_OPERANDS))
+    out.append(rng.choice([';', ' ;', '', ' ', ')', ' end']))
+    for _ in range(rng.randint(0, 4)):
+        out.append(' ' + rng.choice(CHAIN_PREFIX + CHAIN_OPERANDS))
+    return ''.join(out)
 
 
 def bracket_cross(rng, maxitems=12):
@@ -339,10 +376,12 @@ def decorate(rng, text):
 
 def _hostile_text(rng):
     x = rng.random()
-    if x < 0.40:
+    if x < 0.38:
         return 'charsoup', char_soup(rng)
-    if x < 0.75:
+    if x < 0.70:
         return 'tokensoup', token_soup(rng)
-    if x < 0.88:
+    if x < 0.81:
         return 'blocksoup', block_soup(rng)
+    if x < 0.88:
+        return 'chainsoup', chain_soup(rng)
     return 'corpusmut', corpus_mutation(rng)
